@@ -111,6 +111,8 @@ def special_ip6(rng):
         bytes(16), bytes([255] * 16),
         b"\x20\x01\x0d\xb8" + bytes(11) + rng.bytes(1),
         b"\xfe\x80" + bytes(6) + rng.bytes(8),
+        b"\xfe\x80\x00" + bytes([1 + rng.below(255)]) + bytes(4) + rng.bytes(8),      # fe80:<zone>::… (KAME-style embedded zone)
+        b"\xfe\xbf" + rng.bytes(14),
         bytes(10) + b"\xff\xff" + bytes([127, 0, 0, 1]),
     ])
 
